@@ -76,14 +76,19 @@ fn make_axis<T: Flt>(src: &mut Src, len: usize, ord: Order) -> Vec<T> {
     let mut v: Vec<T> = Vec::new();
     let h = T::of(2f64.powi(src.int_in(-4, 4) as i32));
     let mut cur = T::of((src.unit() - 0.5) * 8.0);
-    for _ in 0..len {
-        v.push(cur);
+    // 1 of 4 explicit axes is the index axis 0, 1, .., len-1 itself (any irregularity then sits between ends that look
+    // exactly like the default axis)
+    let index_like = src.chance(1, 4);
+    for i in 0..len {
+        v.push(if index_like { T::of(i as f64) } else { cur });
         cur = cur + h * T::of(1.0 + src.below(3) as f64);
     }
+    // keep the ends in place for the interior irregularities of an index-like axis
+    let interior = index_like && len >= 3;
     if len == 0 {
         return v;
     }
-    let pos = src.below(len as u64) as usize;
+    let pos = if interior { 1 + src.below(len as u64 - 2) as usize } else { src.below(len as u64) as usize };
     match ord {
         Order::Increasing => {}
         Order::Tie => {
@@ -93,7 +98,10 @@ fn make_axis<T: Flt>(src: &mut Src, len: usize, ord: Order) -> Vec<T> {
             }
         }
         Order::Swap => {
-            if len >= 2 {
+            if interior && len >= 4 {
+                let p = pos.clamp(2, len - 2);
+                v.swap(p, p - 1);
+            } else if len >= 2 {
                 let p = pos.max(1);
                 v.swap(p, p - 1);
             }
